@@ -57,6 +57,8 @@ def main():
     root = json.loads(txt)
     statics, mutables, calls = [], [], {}
     const_members = set()
+    conv_functions = set()
+    string_static_members = set()
     declared_here = set()
     cur_file = ['']
 
@@ -79,6 +81,9 @@ def main():
         line = loc.get('line') or (loc.get('expansionLoc') or {}).get('line') or (loc.get('spellingLoc') or {}).get('line') or 0
         if kind in ('FunctionDecl', 'CXXMethodDecl', 'FunctionTemplateDecl') and here and n.get('name'):
             declared_here.add(n['name'])
+            import re as _re
+            if kind != 'CXXMethodDecl' and _re.match(r'^[a-z0-9_]+_to_[a-z0-9_]+$', n['name']):
+                conv_functions.add(n['name'])
         if kind == 'VarDecl' and here:
             fn_parent = any(p in ('FunctionDecl', 'CXXMethodDecl', 'CXXConstructorDecl', 'CXXDestructorDecl', 'LambdaExpr')
                             for p in parents)
@@ -112,6 +117,8 @@ def main():
                     is_const = qt.rstrip().endswith('const') or ' const ' in qt.split(')')[-1] + ' '
                     if is_const and m.get('storageClass') != 'static' and m.get('name') and not m['name'].startswith('operator'):
                         const_members.add(m['name'])
+                    if m.get('storageClass') == 'static' and m.get('name'):
+                        string_static_members.add(m['name'])
         for c in n.get('inner', []) or []:
             visit(c, parents + [kind])
 
@@ -134,6 +141,14 @@ def main():
     lines.append('(* public const non-static member functions of class ST::string (operators excluded) *)')
     lines.append('Definition string_const_members : list string := [')
     lines.append(';\n'.join('  ' + coq_str(c) for c in sorted(const_members)))
+    lines.append('].')
+    lines.append('(* free conversion functions X_to_Y declared in the headers *)')
+    lines.append('Definition conversion_functions : list string := [')
+    lines.append(';\n'.join('  ' + coq_str(c) for c in sorted(conv_functions)))
+    lines.append('].')
+    lines.append('(* public static member functions of ST::string (from_*, fill, ...) *)')
+    lines.append('Definition string_static_members : list string := [')
+    lines.append(';\n'.join('  ' + coq_str(c) for c in sorted(string_static_members)))
     lines.append('].')
     lines.append('(* non-member functions called from the headers and not declared in them *)')
     lines.append('Definition extern_calls : list string := [')
